@@ -643,13 +643,15 @@ func (module *InMemoryStorage) deleteTopic(request *protocol.StorageRequest, req
 		return
 	}
 
-	// Work backwards - remove the topic from consumer groups first
+	// Work backwards - remove the topic from consumer groups first. The group map must not change while we walk it
+	clusterMap.consumerLock.RLock()
 	for _, consumerMap := range clusterMap.consumer {
 		consumerMap.lock.Lock()
 		// No need to check for existence
 		delete(consumerMap.topics, request.Topic)
 		consumerMap.lock.Unlock()
 	}
+	clusterMap.consumerLock.RUnlock()
 
 	// Now remove the topic from the broker list
 	clusterMap.brokerLock.Lock()
